@@ -37,6 +37,8 @@ struct Layout {
 }
 
 const OSFS: u64 = 5;
+/// every input of length <= 2 over the structural alphabet x every subset of Interrupted at device calls 0..4 x two transports
+const TINY: u64 = (1 + 12 + 144) * 16 * 2;
 const WRITE_VARIANTS: u64 = 4;
 
 fn offsets_for(len: usize, dense_edge: usize, stride: usize) -> Vec<u32> {
@@ -149,7 +151,7 @@ impl Scenario for C09 {
     }
     fn total_runs(&self, tier: Tier) -> u64 {
         let l = self.layout(tier);
-        OSFS + l.read_cum.last().copied().unwrap_or(0) + l.write_cum.last().copied().unwrap_or(0) + l.seeded
+        OSFS + TINY + l.read_cum.last().copied().unwrap_or(0) + l.write_cum.last().copied().unwrap_or(0) + l.seeded
     }
     fn plan(&self, seed: u64, idx: u64, tier: Tier) -> Plan {
         let l = self.layout(tier);
@@ -162,6 +164,39 @@ impl Scenario for C09 {
             return p;
         }
         i -= OSFS;
+        if i < TINY {
+            let tr = i % 2;
+            let mask = (i / 2) % 16;
+            let mut k = i / 32;
+            let a = crate::corpus::SHORT_ALPHABET;
+            let mut p = Plan::new("C09", "seeded-read-interrupted-only", seed, idx);
+            if k >= 1 {
+                k -= 1;
+                if k < 12 {
+                    p.data = vec![a[k as usize]];
+                } else {
+                    k -= 12;
+                    p.data = vec![a[(k % 12) as usize], a[(k / 12) as usize]];
+                }
+            }
+            p.eintr = (0..4u32).filter(|b| mask & (1 << b) != 0).collect();
+            // bursts stay finite: at most 3 consecutive
+            if p.eintr.len() == 4 {
+                p.eintr.pop();
+            }
+            p.set("dec", ((i / 32) % 9) as i64);
+            if tr == 0 {
+                p.set("t", T_SIM);
+                p.sched = vec![1];
+            } else {
+                p.set("t", T_BUFREADER);
+                p.set("cap", 1 + (i / 32 % 3) as i64);
+                p.sched = vec![1];
+            }
+            p.faults.push("R3-interrupted-around-EOF-of-tiny-input".into());
+            return p;
+        }
+        i -= TINY;
         let rtotal = l.read_cum.last().copied().unwrap_or(0);
         if i < rtotal {
             let f = l.read_cum.partition_point(|&c| c <= i);
@@ -287,6 +322,17 @@ impl Scenario for C09 {
         if rng.chance(1, 5) {
             let e = *rng.pick(&crate::corpus::ENCS);
             p.data = crate::corpus::transcode(&p.data, e);
+        }
+        if rng.chance(1, 150) {
+            // a line longer than 1 MiB (faults and interruptions then also land deep inside one line)
+            let n = 1_100_000 + rng.below(100_000);
+            let mut d = p.data.clone();
+            let at = d.iter().position(|b| *b == b'\n').map_or(0, |x| x + 1);
+            if std::str::from_utf8(&d).is_ok() {
+                let line = format!("Tags:{}\n", "ab ".repeat(n / 3));
+                d.splice(at..at, line.bytes());
+                p.data = d;
+            }
         }
         if rng.chance(3, 5) {
             p.set("dec", rng.below(9) as i64);
